@@ -13,7 +13,7 @@ pub struct C02;
 
 fn n_cases(tier: Tier) -> u64 {
     match tier {
-        Tier::Quick => 120_000,
+        Tier::Quick => 300_000,
         Tier::Thorough => 3_000_000,
     }
 }
